@@ -42,8 +42,21 @@ def main():
         assert rc == 0, o
         rc, o = sh(f"git apply {patch}", cwd=wt)
         if rc != 0:
-            print("patch does not apply:", o)
-            return 2
+            # the tree has moved on since the change was delivered (fix: commits): carry it over with a
+            # three-way merge and continue with the carried-over patch (the delivered one is kept as patch.orig)
+            rc3, o3 = sh(f"git apply -3 {patch}", cwd=wt)
+            rcu, ou = sh("git diff --name-only --diff-filter=U", cwd=wt)
+            if rc3 != 0 or ou.strip():
+                print("patch does not apply:", o, o3)
+                return 2
+            rcd, od = sh("git diff HEAD", cwd=wt)
+            orig = os.path.join(out, "patch.orig")
+            if not os.path.exists(orig):
+                shutil.copy(patch, orig)
+            open(patch, "w").write(od)
+            sh("git reset -q", cwd=wt)
+            meta["ported"] = "the delivered patch (patch.orig) no longer applied after later fix: commits; patch.diff is its three-way merge onto HEAD"
+            print("ported with a three-way merge")
         rc, o = sh("go build ./... && go test -count=1 ./...", cwd=wt)
         meta["suite_passes_with_change"] = rc == 0
         meta["ran"].append("go build ./... && go test -count=1 ./...  (with change): exit %d" % rc)
@@ -104,6 +117,8 @@ def main():
             shutil.copy(patch, os.path.join(dst, "patch.diff"))
             for d in demos:
                 shutil.copy(os.path.join(out, d), os.path.join(dst, d))
+            if os.path.exists(os.path.join(out, "patch.orig")):
+                shutil.copy(os.path.join(out, "patch.orig"), os.path.join(dst, "patch.orig"))
             notes = os.path.join(out, "notes.md")
             if os.path.exists(notes):
                 shutil.copy(notes, os.path.join(dst, "notes.md"))
